@@ -199,7 +199,9 @@ def gen_script(rnd, k):
         m = names.hostile_mapping(rnd, ns, pct=40)
         forms = [names.rename(f, m) for f in forms]
         ns = {m.get(n, n) for n in ns}
-    logic = pick_logic(forms, rnd)
+    gv_terms = [g.term(g.ty(), 2) for _ in range(2)] if kind == "get-value" else []
+    # the logic must cover everything the script mentions (also the get-value terms)
+    logic = pick_logic(forms + gv_terms, rnd)
     w = Writer(rnd, numerals_are_real=logic in ("QF_LRA", "QF_NRA", "QF_RDL", "LRA"), tags=tags)
     lines = []
     if logic:
@@ -213,8 +215,7 @@ def gen_script(rnd, k):
     elif kind == "get-value":
         body_lines.append("(assert %s)" % w.term(forms[0]))
         body_lines.append("(check-sat)")
-        ts = [g.term(g.ty(), 2) for _ in range(2)]
-        ts = [t for t in ts if not is_arr(reftype(t)) or True]
+        ts = gv_terms
         extra_decl_forms += ts
         body_lines.append("(get-value (%s))" % " ".join(w.term(t) for t in ts))
         tags.add("get-value")
